@@ -7,6 +7,7 @@ import SlogModel.Model.Ser
 import SlogModel.Model.Pack
 import SlogModel.Model.Client
 import SlogModel.Model.Buffer
+import SlogModel.Model.Disk
 import SlogModel.Gen.Facts
 import Driver.Util
 import Driver.XformParse
@@ -52,6 +53,7 @@ structure DState where
   routeN : Nat := 0
   routePipes : List Bytes := []     -- merge keys of the pipelines, in creation order
   routeMetrics : List Bytes := []   -- merge keys of the metric key sets, in creation order
+  diskFS : Disk.FS := []
   buf : Buffer.St := { cfg := { memCap := 0, queueCap := 0, maxBytes := 0, hasDir := false } }
 
 def unhexAll (hs : List String) : Option (List Bytes) := hs.mapM unhex
@@ -351,6 +353,73 @@ def handleBuf (st : DState) : List String → DState × String
         ({ st with buf := s }, showBuf s extra)
   | _ => (st, "bad-op")
 
+
+/-! chunk persistence under faults -/
+
+def nameKey : Disk.Name → Nat × Nat
+  | .final id => (id, 0)
+  | .temp id => (id, 1)
+
+def showFS (fs : Disk.FS) : String :=
+  let sorted := fs.mergeSort (fun a b => let ka := nameKey a.1; let kb := nameKey b.1; ka.1 < kb.1 || (ka.1 == kb.1 && ka.2 ≤ kb.2))
+  let items := sorted.map (fun p => match p.2 with
+    | .file d => s!"{Disk.showName p.1}:{hex d}"
+    | .dir => s!"{Disk.showName p.1}:dir")
+  if items.isEmpty then "-" else ",".intercalate items
+
+def parseChunk (t : String) : Option (Nat × Bytes) :=
+  match t.splitOn ":" with
+  | [id, h] => do some (← id.toNat?, ← unhex h)
+  | _ => none
+
+def handleDisk (st : DState) : List String → DState × String
+  | "victim" :: kind :: toks =>
+    -- tokens: chunks…, then the fault argument and the position
+    let chunks := toks.take (toks.length - 2)
+    let arg := (toks.drop (toks.length - 2)).headD ""
+    let pos := (toks.drop (toks.length - 1)).headD ""
+    match arg.toNat?, pos.toNat?, chunks.mapM parseChunk with
+    | some a, some p, some cs =>
+      let f : Option Disk.Fault := match kind with
+        | "none" => some .none
+        | "limit" => some (.limit a)
+        | "limitkill" => some (.limitKill a)
+        | "kill-open" => some (.kill .open)
+        | "kill-write" => some (.kill (.write (((cs.drop p).head?.map (·.2.length)).getD 0)))
+        | "kill-close" => some (.kill .close)
+        | "kill-rename" => some (.kill .rename)
+        | _ => none
+      match f with
+      | some f =>
+        let fs := Disk.victim [] cs p f
+        ({ st with diskFS := fs }, showFS fs)
+      | none => (st, "bad-op")
+    | _, _, _ => (st, "bad-op")
+  | ["plant", kind, id, h] =>
+    match id.toNat?, unhex h with
+    | some id, some d =>
+      let fs := match kind with
+        | "zero" => Disk.put st.diskFS (.final id) (.file [])
+        | "dir" => Disk.put st.diskFS (.final id) .dir
+        | "tmp" => Disk.put st.diskFS (.temp id) (.file d)
+        | _ => st.diskFS
+      ({ st with diskFS := fs }, showFS fs)
+    | _, _ => (st, "bad-op")
+  | ["restart"] =>
+    let entries := (Disk.scan st.diskFS).mergeSort (fun a b => a.1 ≤ b.1)
+    let loaded := entries.map Disk.load
+    let fwd := loaded.filterMap (fun l => match l with | .forward id d => some s!"{id}:{hex d}" | _ => none)
+    let corrupt := loaded.filterMap (fun l => match l with | .corrupt id => some (toString id) | _ => none)
+    let unread := loaded.filterMap (fun l => match l with | .unreadable id => some (toString id) | _ => none)
+    -- forwarded chunks are confirmed (file removed), corrupt ones removed, unreadable ones stay
+    let fs := loaded.foldl (fun fs l => match l with
+      | .forward id _ => Disk.del fs (.final id)
+      | .corrupt id => Disk.del fs (.final id)
+      | .unreadable _ => fs) st.diskFS
+    let j := fun (l : List String) => if l.isEmpty then "-" else ",".intercalate l
+    ({ st with diskFS := fs }, s!"fwd={j fwd} dropped={corrupt.length + unread.length} ioerr={unread.length} left={showFS fs}")
+  | _ => (st, "bad-op")
+
 /-! client trace monitor -/
 
 def natList (t : String) : Option (List Nat) :=
@@ -409,6 +478,7 @@ def handle (st : DState) (line : String) : DState × String :=
   | "cfg" :: rest => handleCfg st rest
   | "client" :: rest => (st, handleClient rest)
   | "buf" :: rest => handleBuf st rest
+  | "disk" :: rest => handleDisk st rest
   | ["redact", h] =>
     match unhex h with
     | none => (st, "bad-op")
